@@ -12,6 +12,14 @@ NCPU = os.cpu_count() or 4
 
 GOENV = dict(os.environ, GOFLAGS="-mod=mod", GOPROXY="off", GOSUMDB="off", GOTOOLCHAIN="local")
 
+class LibraryCrash(Exception):
+    """The driver process was killed by a panic (or fatal runtime error) in a goroutine that the LIBRARY started:
+    no caller can recover from that. It is behaviour of the code under test, not of the harness (a panic on the
+    driver's own goroutines is recovered and recorded by the driver, and anything else that kills it is exit 2)."""
+    def __init__(self, text, args):
+        Exception.__init__(self, text)
+        self.cmd = args
+
 class Infra(Exception):
     """The machinery failed (build, TLC crash, timeout, missing output): exit 2, never a violation."""
 
@@ -75,6 +83,10 @@ def run(args, timeout=3600, env=None, cwd=None, ok_codes=(0,)):
         p = subprocess.run(args, cwd=cwd, env=env, capture_output=True, text=True, timeout=timeout)
     except subprocess.TimeoutExpired:
         raise Infra("timeout after %ss: %s" % (timeout, " ".join(args)[:300]))
+    if p.returncode not in ok_codes and ("panic:" in p.stderr or "fatal error:" in p.stderr) \
+            and "created by github.com/theQRL/go-qrllib/" in p.stderr and "created by main." not in p.stderr.split("created by github.com/theQRL/go-qrllib/")[0][-1500:]:
+        i = max(p.stderr.find("panic:"), 0)
+        raise LibraryCrash(p.stderr[i:i + 3000], [str(a) for a in args])
     if p.returncode not in ok_codes:
         raise Infra("command failed rc=%s: %s\n%s\n%s" % (p.returncode, " ".join(args)[:300], p.stdout[-2000:], p.stderr[-4000:]))
     p.wall = time.time() - t0
